@@ -212,7 +212,7 @@ func genChurn(rnd *rand.Rand, variant string, wide bool) churnSpec {
 			}
 		}
 		s.Progs = append(s.Progs, prog)
-		s.Reps = append(s.Reps, 8+rnd.Intn(17))
+		s.Reps = append(s.Reps, 30+rnd.Intn(50))
 	}
 	for g := 0; g < nr; g++ {
 		var prog []opRec
@@ -220,7 +220,7 @@ func genChurn(rnd *rand.Rand, variant string, wide bool) churnSpec {
 			prog = append(prog, opRec{Code: []int{opGet, opPeek, opExist}[rnd.Intn(3)], K: pick(rnd, allKeys)})
 		}
 		s.Progs = append(s.Progs, prog)
-		s.Reps = append(s.Reps, 8+rnd.Intn(17))
+		s.Reps = append(s.Reps, 30+rnd.Intn(50))
 	}
 	s.Cap = need + int64(rnd.Intn(50)) // far from full
 	if wide {
